@@ -1044,7 +1044,7 @@ def c11_order_c09(sc, base, seed):
 
 
 def long_loop_c13(sc, base, seed):
-    return long_loop(sc, base, seed * 5, pid="C13")
+    return long_loop(sc, base, seed, pid="C13")
 
 
 def pure_manual_c19(sc, base, seed):
